@@ -496,9 +496,13 @@ Proof.
 Qed.
 
 Definition post_total (pc : postcode) : bool :=
-  match pc with PostOk | PostVar | PostMQ | PostPV | PostML => true | _ => false end.
+  match pc with PostOk | PostFirst | PostColor | PostVar | PostMQ | PostPV | PostML => true | PostDim => false end.
 Lemma post_total_ok pc r : post_total pc = true -> post pc r <> PCrash.
-Proof. destruct pc; cbn; try discriminate; intros _; try discriminate. Qed.
+Proof.
+  destruct pc; cbn; try discriminate; intros _; try discriminate.
+  destruct (r_wf r); [|discriminate]. destruct (value_item (r_items r)); [|discriminate].
+  destruct (eqs _ _); discriminate.
+Qed.
 
 Section Crash.
   Variable o : opts.
@@ -709,7 +713,7 @@ Section First.
         destruct Hps as [_ [A2 A3]]; apply appended_ext in A3; (split; [left; rewrite A2; exact E1|]);
         cbn [sx l_seq set_found set_started] in A3; rewrite E2 in A3; exact A3.
     - cbn. destruct (l_stopnm st1); cbn; [apply Hsame; assumption|]. split; [right; reflexivity|left; exact E2].
-    - cbn. destruct (l_stopnm st1); cbn; [apply Hsame; assumption|]. split; [right; reflexivity|left; exact E2].
+    - cbn. split; [right; reflexivity|left; exact E2].
   Qed.
 
   Lemma finish_J st r : J st -> finish o st = Ret r -> r_wf r = true -> exists it rest, r_items r = it :: rest /\ Fit it.
@@ -779,7 +783,7 @@ Section First.
       destruct (process sub postof p t0 sx) as [st'|st'|x]; [| |exact (Hpo x eq_refl)];
         destruct Hps as [_ [_ A3]]; rewrite Hsx in A3; destruct (Hit _ A3) as [it [H1 H2]]; right; eauto.
     - cbn. rewrite E3. cbn. left. reflexivity.
-    - cbn. rewrite E3. cbn. left. reflexivity.
+    - cbn. left. reflexivity.
   Qed.
 
   Lemma parse_tree_first tr anc l r :
@@ -863,11 +867,11 @@ Lemma post_ok_first pc r :
                                    (pc = PostDim -> is_obj it = false)) ->
   post pc r <> PCrash.
 Proof.
-  intros Hpc H. unfold post. destruct (r_wf r); [|destruct Hpc as [->|[->| ->]]; discriminate].
-  destruct (H eq_refl) as [it [rest [Hi [Hc Ho]]]]. rewrite Hi. destruct Hpc as [->|[->| ->]].
-  - discriminate.
-  - specialize (Ho eq_refl). destruct it; [|discriminate]. cbn [hd]. unfold is_comment_item. cbn [item_ty] in *. rewrite Hc. discriminate.
-  - unfold is_comment_item. rewrite Hc. destruct (eqs (item_ty it) (s "FUNCTION")); discriminate.
+  intros Hpc H. destruct Hpc as [->|[->| ->]]; try (apply post_total_ok; reflexivity).
+  unfold post. destruct (r_wf r); [|discriminate].
+  destruct (H eq_refl) as [it [rest [Hi [Hc Ho]]]]. rewrite Hi. specialize (Ho eq_refl).
+  unfold value_item. cbn [List.find]. unfold is_comment_item. rewrite Hc. cbn [negb].
+  destruct it; [discriminate|discriminate].
 Qed.
 
 (* ------------------------------------------------------------------ the media part of env_real *)
@@ -1053,7 +1057,8 @@ Example env_real_not_ranked_by_depth :
 Proof. vm_compute. reflexivity. Qed.
 
 (* a toy environment that satisfies the decidable side condition of pparse_never_crashes: the real MediaList tree over a
-   one-production media query (env_real itself does not: PostFirst / PostDim / PostColor are partial) *)
+   one-production media query (env_real itself does not: PostDim is partial -- a DimensionValue whose first non-comment
+   item is an object; value_leaf_ctor_total shows the real DimensionValue tree never produces one) *)
 Definition env_toy : genv :=
   [ mkGr (s "MediaList") tree_MediaList opts0 PostML;
     mkGr (s "MediaQuery") (PSeq [PProd (mkProd (s "t") (MTy (s "IDENT")) false ADefault None false false false false false false)] 1 (Some 1)) opts0 PostMQ;
@@ -1238,7 +1243,7 @@ Proof.
   - exists PostOk. split; [unfold postof_env; rewrite env10; reflexivity|exact (value_build_mod_depth 10 _ d toks env10 C10 eq_refl Hs)].
   - exists PostVar. split; [unfold postof_env; rewrite env11; reflexivity|exact (value_build_mod_depth 11 _ d toks env11 C11 eq_refl Hs)].
 Qed.
-(* Value / ColorValue / DimensionValue / URIValue on their own: the PARSE never crashes ... *)
+(* Value / ColorValue / DimensionValue / URIValue on their own: the parse never crashes *)
 Theorem value_leaf_parse_mod_depth : forall g, 4 <= g <= 7 -> forall d toks, sane_toks toks ->
   pparse_env d env_real g toks = DepthOut \/ exists r, pparse_env d env_real g toks = Ret r.
 Proof.
@@ -1249,18 +1254,132 @@ Proof.
   - exact (value_parse_mod_depth 6 _ d toks env6 C6 Hs).
   - exact (value_parse_mod_depth 7 _ d toks env7 C7 Hs).
 Qed.
-(* ... but their constructors read seq[0] and are NOT total on sane token lists: an EOF token alone sets stopall, the
-   closing check (and its "empty" test) is skipped, ok = True with an empty seq; a leading comment is seq[0] *)
+(* ------------------------------------------------------------------ a tree without sub-parsers only produces text items *)
+Definition noasub (p : prod) : bool := match p_toseq p with ASub _ _ => false | _ => true end.
+Definition allstr (l : list item) : Prop := Forall (fun it => is_obj it = false) l.
+
+Section Str.
+  Variable o : opts.
+  Variable sub : nat -> bool -> tok -> list tok -> out.
+  Variable postof : nat -> option postcode.
+  Definition Qs (p : prod) : Prop := noasub p = true.
+
+  Lemma appended_str p t old new : noasub p = true -> appended p t old new -> allstr old -> allstr new.
+  Proof.
+    unfold appended, noasub. destruct (p_stopkeep p); [intros _ -> Ho; exact Ho|].
+    destruct (p_toseq p) as [| | | | | |c|lab g|]; intros Hn H Ho; try discriminate; try contradiction;
+      try (subst new; exact Ho); destruct H as [v ->]; (constructor; [reflexivity|exact Ho]).
+  Qed.
+
+  Lemma body_str t st :
+    stack_all Qs (l_stack st) -> allstr (l_seq st) ->
+    match body o sub postof t st with
+    | LCont st' | LBreak st' => stack_all Qs (l_stack st') /\ allstr (l_seq st')
+    | LOut _ => True
+    end.
+  Proof.
+    intros HQ HS. unfold body.
+    destruct (o_checkS o && negb (eqs (ty t) (s "COMMENT")) && eqs (ty t) (s "S") && l_afterS st); [split; assumption|].
+    set (st1 := if o_checkS o && negb (eqs (ty t) (s "COMMENT")) then set_afterS st (eqs (ty t) (s "S")) else st).
+    assert (Hst1 : l_stack st1 = l_stack st /\ l_seq st1 = l_seq st) by (unfold st1; destruct (_ && _); split; reflexivity).
+    destruct Hst1 as [E1 E2].
+    assert (HQ1 : stack_all Qs (l_stack st1)) by (rewrite E1; exact HQ).
+    assert (HS1 : allstr (l_seq st1)) by (rewrite E2; exact HS).
+    destruct (eqs (ty t) (s "COMMENT")); [cbn; split; [assumption|constructor; [reflexivity|assumption]]|].
+    destruct (l_defaultS st1 && eqs (ty t) (s "S") && negb (o_checkS o)).
+    { destruct (_ || _); cbn; split; try assumption. constructor; [reflexivity|assumption]. }
+    destruct (eqs (ty t) (s "INVALID")); [cbn; split; assumption|].
+    destruct (eqs (ty t) (s "EOF")); [cbn; split; assumption|].
+    cbn [l_stack set_started].
+    pose proof (find_all Qs (find_fuel (l_stack st1)) (l_stack st1) t HQ1) as Hfa.
+    destruct (find _ (l_stack st1) t) as [p stack|stack|stack| |]; try exact I.
+    - destruct Hfa as [Hqp [Hm Hqs]].
+      match goal with |- context [process sub postof p t ?stx] => set (sx := stx) end.
+      pose proof (process_seq sub postof p t sx) as Hps.
+      destruct (process sub postof p t sx) as [st'|st'|x]; [| |exact I];
+        destruct Hps as [A1 [_ A3]]; rewrite A1; (split; [exact Hqs|]); exact (appended_str p t _ _ Hqp A3 HS1).
+    - cbn. destruct (l_stopnm st1); cbn; split; assumption.
+    - cbn. split; assumption.
+  Qed.
+
+  Lemma rstripS_str l : allstr l -> allstr (rstripS l).
+  Proof.
+    induction l as [|x r IH]; cbn [rstripS]; intros H; [exact H|]. inversion H; subst.
+    destruct (eqs (item_ty x) (s "S")); [apply IH; assumption|exact H].
+  Qed.
+
+  Lemma finish_str st r : allstr (l_seq st) -> finish o st = Ret r -> allstr (r_items r).
+  Proof.
+    intros HS. assert (Hrev : allstr (rev (rstripS (l_seq st)))).
+    { apply Forall_forall. intros it Hin. apply in_rev in Hin. pose proof (rstripS_str _ HS) as H.
+      unfold allstr in H. rewrite Forall_forall in H. exact (H it Hin). }
+    unfold finish. destruct (l_stopall st); [intros H; inversion H; subst r; exact Hrev|].
+    destruct (final _ _ _); try discriminate. destruct (_ && _); intros H; inversion H; subst r; cbn; [constructor|exact Hrev].
+  Qed.
+
+  Lemma loop_str n : forall st r,
+    stack_all Qs (l_stack st) -> allstr (l_seq st) -> loop o sub postof n st = Ret r -> allstr (r_items r).
+  Proof.
+    induction n as [|n IH]; intros st r HQ HS; [discriminate|]. rewrite loop_unfold.
+    destruct (pull st) as [[t st1]|] eqn:Hp; [|apply finish_str; exact HS].
+    destruct (pull_fields st t st1 Hp) as [E1 [E2 _]].
+    pose proof (body_str t st1 ltac:(rewrite E1; exact HQ) ltac:(rewrite E2; exact HS)) as Hb.
+    pose proof (body_ext o sub postof t st1) as Hx.
+    destruct (body o sub postof t st1) as [st2|st2|x].
+    - destruct Hb as [B1 B2]. apply IH; assumption.
+    - destruct Hb as [B1 B2]. apply finish_str. exact B2.
+    - intros E. exfalso. exact (Hx r E).
+  Qed.
+
+  Lemma parse_tree_str clear tr anc first toks sh r :
+    tallb noasub tr = true -> parse_tree sub postof clear o tr anc first toks sh = Ret r -> allstr (r_items r).
+  Proof.
+    intros Ht. unfold parse_tree, init_state. destruct (enter tr) as [f|] eqn:He; [|discriminate].
+    apply loop_str; cbn [l_stack l_seq]; [|constructor].
+    constructor; [|constructor]. eapply enter_all; [|exact He]. exact (tallb_tall noasub Qs (fun p H => H) tr Ht).
+  Qed.
+End Str.
+
+Lemma post_dim_str r : allstr (r_items r) -> post PostDim r <> PCrash.
+Proof.
+  intros H. unfold post. destruct (r_wf r); [|discriminate].
+  destruct (value_item (r_items r)) as [it|] eqn:Hv; [|discriminate].
+  unfold value_item in Hv. apply find_some in Hv. destruct Hv as [Hin _].
+  unfold allstr in H. rewrite Forall_forall in H. specialize (H it Hin). destruct it; discriminate.
+Qed.
+
+Lemma dim_tree_noasub : tallb noasub tree_DimensionValue = true.
+Proof. vm_compute. reflexivity. Qed.
+
+(* ... and after the repair of value.py (_valueitem: the first non-comment item) so do their constructors *)
+Theorem value_leaf_ctor_total : forall g, 4 <= g <= 7 -> forall toks d, sane_toks toks ->
+  exists pc, postof_env env_real g = Some pc /\
+  (pparse_env d env_real g toks = DepthOut \/ exists r, pparse_env d env_real g toks = Ret r /\ post pc r <> PCrash).
+Proof.
+  intros g Hg toks d Hs. destruct cls2_trees as [_ [C4 [C5 [C6 [C7 _]]]]].
+  assert (Hc : g = 4 \/ g = 5 \/ g = 6 \/ g = 7) by lia. destruct Hc as [->|[->|[->| ->]]].
+  - exists PostFirst. split; [unfold postof_env; rewrite env4; reflexivity|exact (value_build_mod_depth 4 _ d toks env4 C4 eq_refl Hs)].
+  - exists PostColor. split; [unfold postof_env; rewrite env5; reflexivity|exact (value_build_mod_depth 5 _ d toks env5 C5 eq_refl Hs)].
+  - exists PostDim. split; [unfold postof_env; rewrite env6; reflexivity|].
+    destruct (value_parse_mod_depth 6 _ d toks env6 C6 Hs) as [H|[r H]]; [left; exact H|right].
+    exists r. split; [exact H|]. apply post_dim_str. unfold pparse_env in H. destruct d as [|d]; [discriminate|].
+    cbn [pparse_sub] in H. rewrite env6 in H. cbn [g_tree g_opts] in H.
+    exact (parse_tree_str _ _ _ _ _ _ _ _ _ r dim_tree_noasub H).
+  - exists PostFirst. split; [unfold postof_env; rewrite env7; reflexivity|exact (value_build_mod_depth 7 _ d toks env7 C7 eq_refl Hs)].
+Qed.
+
+(* the four inputs on which the constructors raised before the repair (IndexError, IndexError, TypeError,
+   UnboundLocalError) now build an object: not wellformed for the lone EOF, wellformed after a leading comment *)
 Definition eof_tok : tok := mkTok (s "EOF") [] [] 1 1.
-Example value_ctor_refuted :
+Example value_ctor_witnesses_fixed :
   sane_toks [eof_tok] /\ sane_toks [tk "COMMENT" "/**/"; tk "NUMBER" "1"] /\
-  build 3 env_real gid_Value [eof_tok] = Some PCrash /\
-  build 3 env_real gid_URIValue [eof_tok] = Some PCrash /\
-  build 3 env_real gid_DimensionValue [tk "COMMENT" "/**/"; tk "NUMBER" "1"] = Some PCrash /\
-  build 3 env_real gid_ColorValue [tk "COMMENT" "/**/"; tk "IDENT" "red"] = Some PCrash.
+  (exists its mt, build 3 env_real gid_Value [eof_tok] = Some (PRet false its mt)) /\
+  (exists its mt, build 3 env_real gid_URIValue [eof_tok] = Some (PRet false its mt)) /\
+  (exists its mt, build 3 env_real gid_DimensionValue [tk "COMMENT" "/**/"; tk "NUMBER" "1"] = Some (PRet true its mt)) /\
+  (exists its mt, build 3 env_real gid_ColorValue [tk "COMMENT" "/**/"; tk "IDENT" "red"] = Some (PRet true its mt)).
 Proof.
   split; [repeat constructor; cbn; discriminate|]. split; [repeat constructor; cbn; discriminate|].
-  vm_compute. repeat split.
+  vm_compute. repeat split; eauto.
 Qed.
 Example property_value_ex :
   exists r, pparse_env 4 env_real gid_PropertyValue [tk "IDENT" "red"; tk "S" " "; tk "FUNCTION" "f("; tk "NUMBER" "1"; tk "CHAR" ")"] = Ret r
@@ -1274,3 +1393,4 @@ Proof. vm_compute. reflexivity. Qed.
 Print Assumptions property_value_total_mod_depth.
 Print Assumptions value_ctor_total_mod_depth.
 Print Assumptions value_leaf_parse_mod_depth.
+Print Assumptions value_leaf_ctor_total.
